@@ -8,6 +8,8 @@ import (
 	"go/parser"
 	"go/token"
 	"math/rand"
+	"reflect"
+	"regexp"
 	"sort"
 	"strconv"
 	"strings"
@@ -348,6 +350,7 @@ func checkC07(c *Ctx) {
 			items = append(items, traceItem{Key: cfgs[i].key(), Trace: b, Events: 1, Replay: obj{"kind": "c07", "cfg": cfgs[i]}})
 		}
 	}
+	items = append(items, c07Positions(c)...)
 	c.Traces(int64(len(items)))
 	tcfg := importsConsts(false, true) + "INIT TInit\nNEXT TNext\nINVARIANTS EachOnce Exact Bound LocalsBare Distinct Precedence NoOpKept Conforms\nPOSTCONDITION Accepted\nCHECK_DEADLOCK FALSE\n"
 	validateTracesF(c, "ImportsTraceMC", tcfg, map[string][]byte{"ImportsTraceMC.tla": []byte(importsTraceMC)}, items, 3000, false, func(it traceItem, res *TLCResult) {
@@ -373,5 +376,170 @@ func init() {
 			return msg
 		}
 		return "output:\n" + obs.Output
+	}
+}
+
+// ---- a reference at every expression position ----
+
+var dstExprType = reflect.TypeOf((*dst.Expr)(nil)).Elem()
+
+// exprPositions lists every position below n whose static type is dst.Expr (a field or a list
+// element), by reflection over struct fields.
+func exprPositions(n dst.Node, out *[]nodePos, seen map[dst.Node]bool) {
+	if n == nil || reflect.ValueOf(n).IsNil() || seen[n] {
+		return
+	}
+	seen[n] = true
+	v := reflect.ValueOf(n).Elem()
+	for i := 0; i < v.NumField(); i++ {
+		name := v.Type().Field(i).Name
+		if name == "Imports" || name == "Unresolved" || name == "Obj" || name == "Scope" || name == "Decs" {
+			continue
+		}
+		fv := v.Field(i)
+		switch {
+		case fv.Kind() == reflect.Slice && fv.Type().Elem().Implements(dstNodeType):
+			for k := 0; k < fv.Len(); k++ {
+				if e := fv.Index(k); !e.IsNil() {
+					if fv.Type().Elem() == dstExprType {
+						*out = append(*out, nodePos{v, i, k})
+					}
+					exprPositions(e.Interface().(dst.Node), out, seen)
+				}
+			}
+		case fv.Type().Implements(dstNodeType) && (fv.Kind() == reflect.Ptr || fv.Kind() == reflect.Interface):
+			if !fv.IsNil() {
+				if fv.Type() == dstExprType {
+					*out = append(*out, nodePos{v, i, -1})
+				}
+				exprPositions(fv.Interface().(dst.Node), out, seen)
+			}
+		}
+	}
+}
+
+var c07QualRe = regexp.MustCompile(`([A-Za-z_][A-Za-z0-9_]*)\s*\.\s*V2\b`)
+var c07BareRe = regexp.MustCompile(`\bV2\b`)
+
+// c07Positions puts an identifier carrying the path a/x at every expression position of every
+// template fragment (one at a time), restores with import management and reads the imports and
+// the qualifier off the output.
+func c07Positions(c *Ctx) []traceItem {
+	src, err := templateSrc()
+	if err != nil {
+		c.Infra(err.Error())
+		return nil
+	}
+	minis, err := miniFiles(src)
+	if err != nil {
+		c.Infra(err.Error())
+		return nil
+	}
+	type job struct{ mi, pi int }
+	var jobs []job
+	for mi, m := range minis {
+		if gd, ok := m.Decls[0].(*dst.GenDecl); ok && gd.Tok == token.IMPORT {
+			continue
+		}
+		var ps []nodePos
+		exprPositions(m, &ps, map[dst.Node]bool{})
+		for pi := range ps {
+			jobs = append(jobs, job{mi, pi})
+		}
+	}
+	recs := make([]*traceItem, len(jobs))
+	parallel(len(jobs), func(i int) {
+		j := jobs[i]
+		ms, _ := miniFiles(src)
+		f := ms[j.mi]
+		var ps []nodePos
+		exprPositions(f, &ps, map[dst.Node]bool{})
+		p := ps[j.pi]
+		where := fmt.Sprintf("%s.%s", p.holder.Type().Name(), p.holder.Type().Field(p.fi).Name)
+		key := fmt.Sprintf("position|fragment-%d|%d|%s", j.mi, j.pi, where)
+		p.get().Set(reflect.ValueOf(&dst.Ident{Name: "V2", Path: "a/x"}))
+		var buf bytes.Buffer
+		var perr error
+		msg := guard(func() {
+			perr = decorator.NewRestorerWithImports("main", simple.New(impPkg)).Fprint(&buf, f)
+		})
+		c.Eval(key, true)
+		if msg != "" || perr != nil {
+			// go/format refuses trees that are not valid Go (a reference where only a call, a type or a
+			// name can stand): nothing to observe
+			if msg != "" && !strings.Contains(msg, "format.Node") && !strings.Contains(msg, "interface conversion: ast.") {
+				c.Fail(Finding{Sig: "imports-restore-panics", Input: key, What: msg, Replay: obj{"kind": "c07pos", "mini": j.mi, "pos": j.pi}})
+			} else {
+				c.Add("positions_not_printable", 1)
+			}
+			return
+		}
+		out := buf.String()
+		obs := obj{"src": [][2]string{}, "ov": [][2]string{}, "used": []string{"a/x"}, "imports": [][2]string{}, "quals": [][2]string{}, "locals": []string{}, "kept": false, "shape": 0, "where": where}
+		imps := [][2]string{}
+		if af, err := parser.ParseFile(token.NewFileSet(), "", out, parser.ImportsOnly); err == nil {
+			for _, is := range af.Imports {
+				ip, _ := strconv.Unquote(is.Path.Value)
+				a := ""
+				if is.Name != nil {
+					a = is.Name.Name
+				}
+				imps = append(imps, [2]string{ip, a})
+			}
+		}
+		obs["imports"] = imps
+		body := out
+		if k := strings.Index(out, "V2"); k < 0 {
+			c.Fail(Finding{Sig: "imports-reference-lost", Input: key, What: "the identifier placed at " + where + " is not in the output:\n" + truncate(out, 400), Replay: obj{"kind": "c07pos", "mini": j.mi, "pos": j.pi}})
+			return
+		}
+		q := ""
+		if m := c07QualRe.FindStringSubmatch(body); m != nil {
+			q = m[1]
+		}
+		obs["quals"] = [][2]string{{"a/x", q}}
+		b, _ := json.Marshal(obs)
+		recs[i] = &traceItem{Key: key, Trace: append(b, '\n'), Events: 1, Replay: obj{"kind": "c07pos", "mini": j.mi, "pos": j.pi}}
+	})
+	var items []traceItem
+	for _, r := range recs {
+		if r != nil {
+			items = append(items, *r)
+		}
+	}
+	c.Set("reference_positions", len(items))
+	return items
+}
+
+func init() {
+	replayers["c07pos"] = func(raw json.RawMessage) string {
+		var r struct{ Mini, Pos int }
+		json.Unmarshal(raw, &r)
+		src, err := templateSrc()
+		if err != nil {
+			return ""
+		}
+		ms, _ := miniFiles(src)
+		if r.Mini >= len(ms) {
+			return ""
+		}
+		var ps []nodePos
+		exprPositions(ms[r.Mini], &ps, map[dst.Node]bool{})
+		if r.Pos >= len(ps) {
+			return ""
+		}
+		p := ps[r.Pos]
+		where := fmt.Sprintf("%s.%s", p.holder.Type().Name(), p.holder.Type().Field(p.fi).Name)
+		p.get().Set(reflect.ValueOf(&dst.Ident{Name: "V2", Path: "a/x"}))
+		var buf bytes.Buffer
+		var perr error
+		if msg := guard(func() { perr = decorator.NewRestorerWithImports("main", simple.New(impPkg)).Fprint(&buf, ms[r.Mini]) }); msg != "" || perr != nil {
+			return ""
+		}
+		out := buf.String()
+		if !strings.Contains(out, "\"a/x\"") || c07QualRe.FindStringSubmatch(out) == nil {
+			return "a reference to a/x placed at " + where + " is printed without its import or qualifier:\n" + out
+		}
+		return ""
 	}
 }
